@@ -735,6 +735,7 @@ theorem step_no_deliver (s : St) (op : Op) (h : ∀ vb e, op ≠ .ev vb e) :
   | svDump k => simp only [step, svDump]; (repeat' split) <;> simp [isDeliver]
   | svStore k res => simp only [step, svStore]; (repeat' split) <;> simp [isDeliver]
   | svUnmark k => simp only [step, svUnmark]; (repeat' split) <;> simp [isDeliver]
+  | scrape => simp only [step, scrape]; (repeat' split) <;> simp [isDeliver]
   | _ => simp only [step, crash]; (repeat' split) <;> simp [isDeliver]
 
 /-- the observers after a server event: only that vBucket's observer moves -/
